@@ -361,8 +361,49 @@ def resolve_same_automaton(kind, seed, n_pairs, backend='cudd'):
             de, ds = rnd.choice(shapes_)
             nh, ng = rnd.choice([(1, 1), (1, 2), (2, 1)])
             aut = None
-            for round_ in range(3):
+            for round_ in range(4):
                 moore, plus_one = rnd.choice([(True, True), (True, False), (False, True), (False, False)])
+                if round_ == 3:
+                    # the variable partition changes IN PLACE between two solves: every
+                    # variable of the environment moves to the component (closed system)
+                    if not de:
+                        break
+                    moved = dict(de)
+                    aut.varlist.update(env=[], sys=list(de) + list(ds))
+                    de, ds = dict(), {**moved, **ds}
+                    moore, plus_one = aut.moore, aut.plus_one
+                    qinit = aut.qinit
+                    n += 1
+                    xb, yb = [], None
+                    def bits(names):
+                        out = list()
+                        for v in names:
+                            d = aut.vars[v]
+                            out += [v] if d['type'] == 'bool' else list(d['bitnames'])
+                        return out
+                    yb = bits(list(ds))
+                    base = yb + [b + "'" for b in yb]
+                    gm_ = explicit.Game(0, len(yb), 0, _tt(aut, aut.action['env'], base),
+                                        _tt(aut, aut.action['sys'], base), moore, plus_one)
+                    st = yb
+                    hs = [_tt(aut, h, st) for h in aut.win['<>[]']]
+                    gl = [_tt(aut, g, st) for g in aut.win['[]<>']]
+                    try:
+                        with contextlib.redirect_stdout(io.StringIO()):
+                            if kind == 'streett':
+                                z = gr1.solve_streett_game(aut)[0]
+                                want = gm_.streett(hs, gl)
+                            else:
+                                z = gr1.solve_rabin_game(aut)[0][-1]
+                                want = gm_.rabin(hs, gl)
+                    except Exception as e:
+                        fails.append(dict(name='solving again after the variable partition changed runs', error=repr(e)[:200]))
+                        break
+                    got = _tt(aut, z, st)
+                    if got != set(want) and len(fails) < 5:
+                        fails.append(dict(name=f'{kind} region after the variable partition of the SAME automaton was changed in place (env variables moved to the component)',
+                                          moore=moore, plus_one=plus_one, sys=str(ds), differs_at=str(sorted(got ^ set(want))[:4]), seed=seed))
+                    break
                 qinit = rnd.choice(qinits)
                 fresh = make_game(rnd, de, ds, moore, plus_one, qinit, nh, ng, backend)
                 if aut is None:
